@@ -2,8 +2,8 @@
    For EVERY sequence of front/back pulls: on any run of siblings linked in the arena the
    (head, tail) machine returns exactly what [de_spec] prescribes for a deque: front pulls in
    forward order, back pulls in backward order, every element once, None at both ends afterwards. *)
-From IT Require Import Spec.
-From IT.proofs Require Import TraverseProofs.
+From IT Require Import Props.
+From IT.proofs Require Import TraverseProofs Reach Reach2.
 
 Theorem C10_pulls_children_following : forall a xs pulls, linked a xs -> NoDup (map idx xs) ->
   de_pulls DChildren pulls (hd_error xs, last_error xs) a = Ok (de_spec xs pulls)
@@ -16,6 +16,23 @@ Theorem C10_children : forall a t pulls, tree_in a t ->
   de_run DChildren (root t) pulls a = Ok (de_spec (map root (kids t)) pulls).
 Proof. exact children_pulls. Qed.
 
+(* ---- from EVERY live node of EVERY reachable arena, for EVERY pull sequence ---- *)
+Theorem C10_children_reachable : forall ops F x pulls, Repr (ar (reach ops)) F -> live (ar (reach ops)) x ->
+  de_run DChildren x pulls (ar (reach ops)) = Ok (de_spec (kidsf F x) pulls).
+Proof. exact reach_de_children. Qed.
+(* l is the forward sequence: x and its later siblings (also for parentless nodes in a top-level chain) *)
+Theorem C10_following_reachable : forall ops, valid_hist false init ops -> forall x pulls l,
+  live (ar (reach ops)) x -> is_path (ar (reach ops)) next x l ->
+  de_run DFollowing x pulls (ar (reach ops)) = Ok (de_spec l pulls).
+Proof. exact reach_de_following. Qed.
+Theorem C10_preceding_reachable : forall ops, valid_hist false init ops -> forall x pulls l,
+  live (ar (reach ops)) x -> is_path (ar (reach ops)) prev x l ->
+  de_run DPreceding x pulls (ar (reach ops)) = Ok (de_spec l pulls).
+Proof. exact reach_de_preceding. Qed.
+
 Print Assumptions C10_pulls_children_following.
 Print Assumptions C10_pulls_preceding.
 Print Assumptions C10_children.
+Print Assumptions C10_children_reachable.
+Print Assumptions C10_following_reachable.
+Print Assumptions C10_preceding_reachable.
